@@ -36,10 +36,11 @@ class Model:
     def count(kind, B, x, y):
         x, y = np.asarray(x), np.asarray(y)
         if kind == "ber":
+            t = 0.5 if B is None else float(B)  # for the BER metric the second cell field carries the decision threshold option
             if np.iscomplexobj(x):
-                d = ((x.real > 0.5) != (y.real > 0.5)).sum() + ((x.imag > 0.5) != (y.imag > 0.5)).sum()
+                d = ((x.real > t) != (y.real > t)).sum() + ((x.imag > t) != (y.imag > t)).sum()
                 return int(d), int(x.size * 2)
-            return int(((x > 0.5) != (y > 0.5)).sum()), int(x.size)
+            return int(((x > t) != (y > t)).sum()), int(x.size)
         diff = (x != y)
         bs = x.shape[0]
         d2 = diff.reshape(bs, -1)
@@ -65,7 +66,7 @@ def make_metric(kind, B):
     from kaira.metrics.signal.ber import BitErrorRate
     from kaira.metrics.signal import bler
     if kind == "ber":
-        return BitErrorRate()
+        return BitErrorRate() if B is None else BitErrorRate(threshold=float(B))
     cls = {"bler": bler.BlockErrorRate, "ser": bler.SER, "fer": bler.FER}[kind]
     return cls(block_size=B)
 
@@ -288,7 +289,7 @@ def oneshot(ctx, kind, B, x, y, label):
 def unit_oneshot(ctx, n_gen):
     shapes = [(8,), (12,), (1, 8), (3, 8), (2, 3, 4), (5, 12), (4, 2, 6)]
     rng = np.random.RandomState(ctx.seed + 5)
-    metrics = [("ber", None), ("bler", None), ("bler", 1), ("bler", 2), ("bler", 4), ("ser", 3), ("fer", None), ("bler", 5), ("bler", 7)]
+    metrics = [("ber", None), ("ber", 0.0), ("ber", 0.25), ("bler", None), ("bler", 1), ("bler", 2), ("bler", 4), ("ser", 3), ("fer", None), ("bler", 5), ("bler", 7)]
     for shape in shapes:
         n = int(np.prod(shape))
         base = (rng.rand(*shape) < 0.5).astype(np.float32)
@@ -364,7 +365,7 @@ def check_case(ctx, cell, case):
 def units(tier, seed):
     T = tier == "thorough"
     us = []
-    for kind, B, cx in (("ber", None, False), ("ber", None, True), ("bler", None, False), ("bler", 4, False), ("bler", 2, True), ("ser", 8, False), ("fer", None, False)):
+    for kind, B, cx in (("ber", None, False), ("ber", 0.0, False), ("ber", None, True), ("bler", None, False), ("bler", 4, False), ("bler", 2, True), ("ser", 8, False), ("fer", None, False)):
         us.append(Unit(f"hist_exh_{kind}_{B}_{'c' if cx else 'r'}", "c16:unit_histories_exhaustive", {"kind": kind, "B": B, "maxlen": 6 if T else 5, "complex_": cx}, 6 if T else 3))
         us.append(Unit(f"hist_sm_{kind}_{B}_{'c' if cx else 'r'}", "c16:unit_histories_stateful", {"kind": kind, "B": B, "steps": 200 if T else 50, "examples": 1000 if T else 60, "complex_": cx}, 5))
     us.append(Unit("oneshot", "c16:unit_oneshot", {"n_gen": 20000 if T else 500}, 5))
